@@ -21,7 +21,8 @@ fn size_strat() -> BoxedStrategy<i32> {
 }
 
 fn cookie() -> BoxedStrategy<Vec<u8>> {
-    gens::blob(24)
+    // any content; lengths around 128 / 256 make the value's own length or the enclosing SEQUENCE's cross a BER length-form boundary
+    prop_oneof![8 => gens::blob(24), 1 => (prop_oneof![116usize..=132, 244usize..=260], any::<u8>()).prop_map(|(n, b)| vec![b; n])].boxed()
 }
 
 // ------------------------------------------------------------------ request side
